@@ -7,7 +7,7 @@ from ..view import View
 from . import common
 
 JOBS = {"quick": 4, "thorough": 16}
-KEEP = ("op", "strategy", "handler", "before_sleep", "sleep", "dsleep", "poll", "budget", "metric", "log", "br.allow", "br.success", "br.failure", "br.cancel")
+KEEP = ("op", "strategy", "srec", "handler", "before_sleep", "sleep", "dsleep", "poll", "budget", "metric", "log", "br.allow", "br.success", "br.failure", "br.cancel")
 HOOK_EXCS = ["RuntimeError", "HookBoom", "KeyError", "AbortRetryError", "CircuitOpenError"]
 
 
@@ -115,6 +115,10 @@ def features(sc):
         f.append("special-exception")
     if cfg.get("legacy"):
         f.append("legacy-strategy")
+    if cfg.get("strategy_objects"):
+        f.append("strategy-object-feedback")
+    if sc.get("via_config"):
+        f.append("from_config")
     if len(sc["calls"]) > 1:
         f.append("multi-call")
     return f
@@ -126,7 +130,7 @@ def work(ctx, tier):
     n = (1100 if tier == "quick" else 30000) // ctx.nshards
     for k in range(n):
         sc = gen.rand_scenario(rng, p_special=0.12, specials=("abort", "cancel", "kbd", "sysexit", "nested_exh", "nested_open"), p_budget=0.3, p_breaker=0.3, p_handler=0.35, p_abort=0.25,
-                               ncalls=(1, 3), placements=(k % 3 == 0), p_no_sleeper=0.2)
+                               ncalls=(1, 3), placements=(k % 3 == 0), p_no_sleeper=0.2, p_strategy_objects=0.4, p_via_config=0.3)
         if k % 7 == 0 and sc["cfg"].get("breaker"):
             sc["cfg"]["no_retry"] = True
         if k % 5 == 0:
@@ -163,7 +167,7 @@ def conclude(ctx):
         floors["pair_family:" + f] = (ctx.cnt["pair_family:" + f], 500)
     for f in ("cc", "cx", "xc", "xx"):
         floors["pair_delivery:" + f] = (ctx.cnt["pair_delivery:" + f], 100)
-    for f in ("budget", "breaker", "handler", "before_sleep", "default-sleeper", "abort", "hook-fault", "callback-fault", "special-exception", "legacy-strategy", "multi-call", "no-retry"):
+    for f in ("budget", "breaker", "handler", "before_sleep", "default-sleeper", "abort", "hook-fault", "callback-fault", "special-exception", "legacy-strategy", "multi-call", "no-retry", "strategy-object-feedback", "from_config"):
         floors["feature:" + f] = (ctx.cnt["feature:" + f], 10)
     return dict(
         rule=(
